@@ -32,7 +32,9 @@ TRUSTED = ["lean/Tahoe/Base/Merkle.lean is a hand transcription of hashtree.py (
            "explain as the pair hash of the node's children is printed as raw hex and so shows up as a disagreement",
            "set.pop() order is injected by shadowing the name `set` in the allmydata.hashtree module namespace at run time "
            "(priority orders only; the theorems cover every order)"]
-ASSUMPTIONS = ["pair_hash (SHA-256d tagged pair hash) is injective — hypothesis `hinj` of the soundness theorem",
+ASSUMPTIONS = ["pair_hash (SHA-256d tagged pair hash, each input netstring-framed) is injective on byte strings of ANY length — "
+               "hypothesis PairInjective of the soundness theorem; the harness feeds re-splits of (left || right) at every "
+               "boundary, prefixes and extensions of genuine values, after the genuine tree was hashed in the same process",
                "indices passed to set_hashes are non-negative ints (callers: enumerate, struct '>H', needed_hashes)"]
 
 # Which behaviour the Lean model is run with: "fixed" = with fixes/C35-falsy-hash-and-indexerror.diff applied
@@ -43,7 +45,11 @@ MODE = os.environ.get("C35_MODEL_MODE", "fixed")   # C35_MODEL_MODE=asis compare
 # ----------------------------------------------------------------------------- symbolic terms <-> real bytes
 
 class Terms:
-    """Terms: a<n> atom, e<i> empty_leaf_hash(i), z = b"", P<t><t> pair_hash.  Real bytes both ways."""
+    """Terms: a<n> atom, e<i> empty_leaf_hash(i), z = b"", P<t><t> pair_hash.  Real bytes both ways.
+    Atoms a<N> with N >= RAW_BASE are *raw* byte strings of any length (N - RAW_BASE = int("1" + hex, 16)):
+    values an adversary may supply that are not hashes at all (prefixes, extensions, re-splits of genuine
+    values).  For the Lean model they are just further atoms, distinct from every genuine hash."""
+    RAW_BASE = 1 << 600
 
     def __init__(self):
         from allmydata import hashtree
@@ -83,6 +89,9 @@ class Terms:
         if b is not None:
             return b
         if term[0] == "a":
+            n = int(term[1:])
+            if n >= self.RAW_BASE:
+                return self._reg(term, bytes.fromhex(format(n - self.RAW_BASE, "x")[1:]))
             return self._reg(term, self.tagged_hash(b"verif C35 atom", term[1:].encode()))
         if term[0] == "e":
             return self._reg(term, self.ht.empty_leaf_hash(int(term[1:])))
@@ -90,6 +99,16 @@ class Terms:
             j = self.split(term, 1)
             return self._reg(term, self.ht.pair_hash(self.bytes_of(term[1:j]), self.bytes_of(term[j:])))
         raise ValueError(term)
+
+    def raw_term(self, b):
+        """the term of an arbitrary byte string: its existing term if it is a value we already know, else a raw atom"""
+        b = bytes(b)
+        t = self.b2t.get(b)
+        if t is not None:
+            return t
+        t = "a%d" % (self.RAW_BASE + int("1" + b.hex(), 16))
+        self._reg(t, b)
+        return t
 
     def show_tree(self, lst):
         """list of bytes/None -> terms; unknown values are explained bottom-up as pair hashes of their children."""
@@ -191,6 +210,9 @@ def violation_signature(kind, before, call, outcome, first, history_flags):
             return "state-changed-on-reject-falsy-stored-hash"
         return "state-changed-on-reject"
     if kind == "sound":
+        tm = terms()
+        if any(len(tm.bytes_of(t)) not in (0, 32) for t in supplied.values()) and not (falsy_overwritten or falsy_before):
+            return "forged-leaf-accepted-nonstandard-length-hash"
         if falsy_overwritten or falsy_before:
             return "forged-leaf-accepted-falsy-stored-hash"
         if history_flags.get("index_escaped"):
@@ -331,8 +353,78 @@ def orders(rng, size, k):
 FORGE = 1000   # forged atoms are a<FORGE + index>
 
 
+ODD = "pqsxwy"   # non-hash byte strings derived from the genuine value v: see odd_value
+
+
+def odd_value(choice, v):
+    """prefixes / suffixes / extensions of a genuine 32-byte value (lengths 31, 1, 31, 33, 40, 64)"""
+    return {"p": v[:31], "q": v[:1], "s": v[1:], "x": v + v[:1], "w": v + v[:8], "y": v + v}[choice]
+
+
 def choice_term(choice, gen, idx):
+    if choice in ODD:
+        tm = terms()
+        return tm.raw_term(odd_value(choice, tm.bytes_of(gen[idx])))
     return {"g": gen[idx], "f": "a%d" % (FORGE + idx), "z": "z"}[choice]
+
+
+def resplit_terms(gen, left_idx, boundary):
+    """(genuine left || genuine right) cut at another boundary: terms of the two pieces"""
+    tm = terms()
+    both = tm.bytes_of(gen[left_idx]) + tm.bytes_of(gen[left_idx + 1])
+    return tm.raw_term(both[:boundary]), tm.raw_term(both[boundary:])
+
+
+def sibling_of(i):
+    return i + 1 if i % 2 == 1 else i - 1
+
+
+def odd_length_cases(rng, max_n, boundaries, norders):
+    """adversarial values that are not 32-byte hashes, on a tree seeded with the genuine root (the genuine tree
+    has been built, i.e. every genuine pair has been hashed, in this process):
+      (a) a sibling pair on the chain of leaf k replaced by a re-split of (genuine left || genuine right) at
+          every boundary, the rest of the chain genuine;
+      (b) one supplied value (a needed hash or the leaf) replaced by a prefix / suffix / extension of the
+          genuine value, the rest genuine."""
+    for n in range(1, max_n + 1):
+        T = ["a%d" % i for i in range(n)]
+        gen = genuine_terms(T)
+        size = len(gen)
+        first = (size + 1) // 2 - 1
+        seed_call = {"prio": list(range(size)), "hashes": [(0, gen[0])], "leaves": []}
+        for k in range(n):
+            idx = first + k
+            need = path_needed(idx)
+            chain = [idx]
+            while chain[-1] != 0:
+                chain.append((chain[-1] - 1) // 2)
+            # (a) re-split each sibling pair (c, sibling c) of the chain; deeper chain nodes stay genuine
+            for c in chain[:-1]:
+                left = min(c, sibling_of(c))
+                for b in boundaries:
+                    lt, rt = resplit_terms(gen, left, b)
+                    vals = {i: gen[i] for i in need}
+                    vals[idx] = gen[idx]
+                    # nodes of the chain at or above c are not supplied (they are computed); c itself is supplied
+                    # only when it is an internal node (then nothing below it is supplied)
+                    vals[left], vals[left + 1] = lt, rt
+                    below = [x for x in chain if x > c] if c != idx else []
+                    for x in below:
+                        vals.pop(x, None)
+                        vals.pop(sibling_of(x), None)
+                    leaves = [(k, vals.pop(idx))] if idx in vals else []
+                    hashes = sorted(vals.items())
+                    for prio in orders(rng, size, norders):
+                        yield {"n": n, "T": T, "calls": [seed_call, {"prio": prio, "hashes": hashes, "leaves": leaves}]}
+            # (b) one odd-length value
+            for pos in need + [idx]:
+                for c in ODD:
+                    vals = {i: gen[i] for i in need}
+                    vals[idx] = gen[idx]
+                    vals[pos] = choice_term(c, gen, pos)
+                    leaves = [(k, vals.pop(idx))]
+                    yield {"n": n, "T": T, "calls": [seed_call, {"prio": list(range(size)), "hashes": sorted(vals.items()),
+                                                               "leaves": leaves}]}
 
 
 def exhaustive_cases(rng, max_n, with_prior, norders):
@@ -416,7 +508,7 @@ def random_history(rng, max_leaves, ncalls):
         for i in need:
             c = "g"
             if style > 0.55:
-                c = rng.choice("ggggfmz") if style < 0.9 else rng.choice("gfmz")
+                c = rng.choice("ggggfmz" + "gggg" + ODD) if style < 0.9 else rng.choice("gfmz" + ODD)
             if c != "m":
                 hashes.append((i, choice_term(c, gen, i)))
         if style > 0.7:
@@ -428,7 +520,7 @@ def random_history(rng, max_leaves, ncalls):
                     t = "a%d" % (FORGE + 500 + i)
                 else:
                     i = rng.randrange(size)
-                    t = choice_term(rng.choice("ggfz"), gen, i)
+                    t = choice_term(rng.choice("ggfz" + ODD), gen, i)
                 if i not in [j for (j, _) in hashes]:
                     hashes.append((i, t))
         rng.shuffle(hashes)
@@ -437,7 +529,7 @@ def random_history(rng, max_leaves, ncalls):
         if r3 < 0.75 or style <= 0.55:
             leaves.append((k, gen[idx]))
         elif r3 < 0.9:
-            leaves.append((k, choice_term(rng.choice("fz"), gen, idx)))
+            leaves.append((k, choice_term(rng.choice("fz" + ODD), gen, idx)))
         if style > 0.8 and rng.random() < 0.3:
             k2 = rng.randrange(n + 2)          # second leaf, may be out of range
             if k2 != k:
@@ -447,6 +539,16 @@ def random_history(rng, max_leaves, ncalls):
             kk, t = leaves[0]
             hashes = [(i, x) for (i, x) in hashes if i != first + kk]
             hashes.append((first + kk, t if rng.random() < 0.5 else "a%d" % (FORGE + 900)))
+        if n >= 2 and rng.random() < 0.12:
+            # re-split attack on the leaf pair: (genuine left || genuine right) cut elsewhere, rest of the chain genuine
+            left = min(idx, sibling_of(idx))
+            b = rng.choice([0, 1, 8, 16, 24, 31, 33, 40, 48, 63, 64, rng.randrange(65)])
+            lt, rt = resplit_terms(gen, left, b)
+            vals = {i: gen[i] for i in need if i != sibling_of(idx)}
+            vals[left], vals[left + 1] = lt, rt
+            leaves = [(k, vals.pop(idx))]
+            hashes = list(vals.items())
+            rng.shuffle(hashes)
         call = {"prio": perm(), "hashes": hashes, "leaves": leaves}
         calls.append(call)
         do_call(shadow, call)
@@ -593,6 +695,13 @@ def run(ctx):
         run_batch(ctx, "set_hashes history (exhaustive small scope)", batch)
         nex += len(batch)
     ctx.count("exhaustive-histories", nex)
+    # 2b. byte strings that are not 32-byte hashes: re-splits of genuine pairs at every boundary, prefixes, extensions
+    odd = list(odd_length_cases(ctx.subrng("odd"), 8 if thorough else 4,
+                                list(range(65)) if (thorough or ctx.escalated) else list(range(0, 65, 3)) + [1, 31, 32, 40, 64],
+                                2 if thorough else 1))
+    for i in range(0, len(odd), 4000):
+        run_batch(ctx, "set_hashes history (re-split / odd-length adversarial values)", odd[i:i + 4000])
+    ctx.count("odd-length-histories", len(odd))
     if thorough:
         ctx.exhaustive = True
         ctx.note("exhaustive: 1..8 leaves, every leaf, every genuine/forged/missing/empty choice of each needed hash and of the leaf, "
